@@ -124,6 +124,19 @@ func typedEnc(c *Case) string {
 	return ""
 }
 
+// coldPrefix: one use of every read API (scans only where they are legal).
+func coldPrefix(c *Case) []ReadOp {
+	k := Hex("")
+	if len(c.Keys) > 0 {
+		k = c.Keys[len(c.Keys)/2]
+	}
+	ops := []ReadOp{{Op: "string"}, {Op: "stat"}, {Op: "marshal"}, {Op: "get", Key: k}, {Op: "search", Key: k}, {Op: "rangeget", Key: k}, {Op: "getid", Key: k}, {Op: "typed", Key: k}}
+	if c.Opt.complete() {
+		ops = append(ops, ReadOp{Op: "scanfrom", Key: "", Flag: 3, Steps: 3}, ReadOp{Op: "iternew", Key: k, Flag: 1}, ReadOp{Op: "iterstep", Steps: 2})
+	}
+	return ops
+}
+
 func isScanOp(op string) bool {
 	switch op {
 	case "scanfrom", "scanfromto", "iternew", "iterstep":
@@ -151,30 +164,20 @@ func checkC11(c *Case, s *Stats) error {
 	if err != nil {
 		return err
 	}
-	sh, ok := shapeOf(fresh)
-	classify(s, c, m, sh, ok)
 	noteCurrentCase(c)
 	complete := c.Opt.complete()
+	_ = fresh // no call on any instance before the concurrent phase (cold start)
 
-	// 1. every worker's list executed alone, sequentially, in the same binary
-	base := make([][]string, len(c.Workers))
-	for w, ops := range c.Workers {
-		base[w] = execOps(st, typedEnc(c), ops)
-		for i, r := range base[w] {
-			if strings.HasPrefix(r, "panic:") && (!isScanOp(ops[i].Op) || complete) {
-				return viol("panic", "single-threaded %s(%s) panicked in this build: %s", ops[i].Op, q(string(ops[i].Key)), r)
-			}
-		}
+	// 1. all workers concurrently on ONE shared instance that no call has touched
+	// yet. This phase runs FIRST: state that is initialised lazily on first use
+	// (per instance, or process-wide) is then initialised under concurrency. Two
+	// workers start with a fixed prefix that uses every read API once.
+	workers := make([][]ReadOp, len(c.Workers))
+	copy(workers, c.Workers)
+	prefix := coldPrefix(c)
+	for w := 0; w < len(workers) && w < 2; w++ {
+		workers[w] = append(append([]ReadOp{}, prefix...), workers[w]...)
 	}
-	// 2. all workers concurrently on ONE shared instance. It is a second,
-	// identically prepared instance that no call has touched yet, so that state
-	// initialised lazily on first use is initialised under concurrency
-	// (the sequential pass above would otherwise warm it up).
-	_, st2, err := c.load()
-	if err != nil {
-		return err
-	}
-	st = st2
 	rounds := 1
 	if c.Scrib > 1 {
 		rounds = c.Scrib
@@ -184,30 +187,51 @@ func checkC11(c *Case, s *Stats) error {
 		runtime.GOMAXPROCS(c.Procs)
 	}
 	defer runtime.GOMAXPROCS(prev)
+	results := make([][][]string, rounds)
 	for round := 0; round < rounds; round++ {
-		got := make([][]string, len(c.Workers))
+		got := make([][]string, len(workers))
 		var wg sync.WaitGroup
 		start := make(chan struct{})
-		for w := range c.Workers {
+		for w := range workers {
 			w := w
 			wg.Add(1)
 			go func() {
 				defer wg.Done()
 				<-start
-				got[w] = execOps(st, typedEnc(c), c.Workers[w])
+				got[w] = execOps(st, typedEnc(c), workers[w])
 			}()
 		}
 		close(start)
 		wg.Wait()
-		for w := range c.Workers {
+		results[round] = got
+	}
+	// 2. every worker's list executed alone, sequentially, in the same binary, on
+	// an identically prepared second instance
+	_, st2, err := c.load()
+	if err != nil {
+		return err
+	}
+	base := make([][]string, len(workers))
+	for w, ops := range workers {
+		base[w] = execOps(st2, typedEnc(c), ops)
+		for i, r := range base[w] {
+			if strings.HasPrefix(r, "panic:") && (!isScanOp(ops[i].Op) || complete) {
+				return viol("panic", "single-threaded %s(%s) panicked in this build: %s", ops[i].Op, q(string(ops[i].Key)), r)
+			}
+		}
+	}
+	for round := range results {
+		for w := range workers {
 			for i := range base[w] {
-				if got[w][i] != base[w][i] {
-					op := c.Workers[w][i]
-					return viol("concurrent-differs", "goroutine %d op %d %s(%s): concurrent result %q, alone %q (%d goroutines, GOMAXPROCS %d)", w, i, op.Op, q(string(op.Key)), got[w][i], base[w][i], len(c.Workers), c.Procs)
+				if results[round][w][i] != base[w][i] {
+					op := workers[w][i]
+					return viol("concurrent-differs", "goroutine %d op %d %s(%s): concurrent result %q, alone %q (%d goroutines, GOMAXPROCS %d)", w, i, op.Op, q(string(op.Key)), results[round][w][i], base[w][i], len(workers), c.Procs)
 				}
 			}
 		}
 	}
+	sh, ok := shapeOf(st2)
+	classify(s, c, m, sh, ok)
 	nops := 0
 	mixed := 0
 	for _, ops := range c.Workers {
